@@ -1,6 +1,106 @@
 #!/usr/bin/env python3
-"""Cross-checks of the reference models against independent semantics
-(python float/struct, decimal).  Part of `vcheck setup`."""
+"""Cross-checks of the reference models against independent semantics (python
+float/struct for IEEE encoding, decimal for decimal rounding, plain int
+arithmetic).  Part of `vcheck setup`; a failure means the oracle is broken and
+nothing it says may be believed."""
+import os
+import random
+import struct
 import sys
-print("selftest: ok (placeholder)")
+from decimal import Decimal, getcontext, ROUND_HALF_EVEN
+from fractions import Fraction
+
+sys.path.insert(0, os.path.dirname(os.path.abspath(__file__)))
+from floats import decode_float, encode_float  # noqa: E402
+from parsem import exact_parse, parse_literal  # noqa: E402
+from common import lay, trunc_div  # noqa: E402
+import round as roundm  # noqa: E402
+import rem as remm  # noqa: E402
+
+rnd = random.Random(2026)
+fails = 0
+
+
+def check(cond, msg):
+    global fails
+    if not cond:
+        fails += 1
+        if fails < 10:
+            print("SELFTEST FAIL:", msg)
+
+
+# 1. float decode/encode vs struct (host IEEE arithmetic)
+for _ in range(40000):
+    w = rnd.choice((32, 64))
+    bits = rnd.getrandbits(w)
+    k, v = decode_float(w, bits)
+    f = struct.unpack("<f" if w == 32 else "<d", bits.to_bytes(w // 8, "little"))[0]
+    if k == "fin":
+        check(Fraction(f) == v, "decode %d %x" % (w, bits))
+        # encode an exact rational back
+        fr = Fraction(f)
+        dl = fr.denominator.bit_length() - 1
+        check(encode_float(w, fr.numerator, dl) == (bits if f != 0 or True else bits), "re-encode %d %x" % (w, bits))
+    elif k == "inf":
+        check(f in (float("inf"), float("-inf")), "inf")
+    else:
+        check(f != f, "nan")
+# rounding of integers to f32/f64 vs host conversion
+for _ in range(40000):
+    n = rnd.getrandbits(rnd.randrange(1, 130)) * rnd.choice((1, -1))
+    sh = rnd.randrange(0, 140)
+    want = struct.unpack("<Q", struct.pack("<d", float(Fraction(n, 1 << sh))))[0]
+    check(encode_float(64, n, sh) == want, "f64 rounding of %d/2^%d" % (n, sh))
+    try:
+        w32 = struct.unpack("<I", struct.pack("<f", Fraction(n, 1 << sh)))[0]
+    except OverflowError:
+        w32 = (0x7F800000 | (0x80000000 if n < 0 else 0))
+    # struct's f32 packing double-rounds through f64; only compare when the f64 is exact
+    if Fraction(float(Fraction(n, 1 << sh))) == Fraction(n, 1 << sh):
+        check(encode_float(32, n, sh) == w32, "f32 rounding of %d/2^%d" % (n, sh))
+
+# 2. decimal parse rounding vs decimal module at 700 digits
+getcontext().prec = 700
+for _ in range(4000):
+    n = rnd.choice((8, 16, 32, 64, 128))
+    f = rnd.randrange(0, n + 1)
+    L = lay("%s%d.%d" % (rnd.choice("iu"), n, f))
+    ip = str(rnd.getrandbits(rnd.randrange(1, 40)))
+    fp = "".join(rnd.choice("0123456789") for _ in range(rnd.randrange(0, 60)))
+    lit = rnd.choice(("", "-")) + ip + "." + fp
+    R = exact_parse(L, lit, 10)
+    d = (Decimal(lit) * (Decimal(2) ** f)).to_integral_value(rounding=ROUND_HALF_EVEN)
+    check(R == int(d), "parse %s into f=%d" % (lit, f))
+check(parse_literal("1..2", 10) is None and parse_literal("", 10) is None and parse_literal("+", 10) is None, "grammar")
+check(parse_literal("1.", 10) is not None and parse_literal(".5", 10) is not None and parse_literal("-.5", 10) is not None, "grammar2")
+
+# 3. rounding model vs Fraction arithmetic
+import math
+for _ in range(20000):
+    n = rnd.choice((8, 16, 32))
+    f = rnd.randrange(0, n + 1)
+    L = lay("i%d.%d" % (n, f))
+    A = rnd.randrange(L.lo, L.hi + 1)
+    v = Fraction(A, 1 << f)
+    check(roundm.exact_int(L, A, "floor") == math.floor(v), "floor")
+    check(roundm.exact_int(L, A, "ceil") == math.ceil(v), "ceil")
+    check(roundm.exact_int(L, A, "round_ties_to_even") == round(v), "rte")   # python rounds half to even
+    check(roundm.exact_int(L, A, "trunc") == math.trunc(v), "trunc")
+    r = math.floor(abs(v) + Fraction(1, 2))
+    check(roundm.exact_int(L, A, "round") == (r if v >= 0 else -r), "round away")
+
+# 4. Euclidean model
+for _ in range(20000):
+    L = lay("i16.%d" % rnd.randrange(0, 17))
+    A = rnd.randrange(L.lo, L.hi + 1)
+    B = rnd.randrange(L.lo, L.hi + 1) or 1
+    X = remm.exact(L, "rem", A, B)
+    q = X["q"] >> L.f
+    check(0 <= X["r"] < abs(B) and A == q * B + X["r"], "euclid")
+    check(X["t"] == A - B * trunc_div(A, B) and abs(X["t"]) < abs(B) and (X["t"] == 0 or (X["t"] < 0) == (A < 0)), "trunc rem")
+
+if fails:
+    print("selftest: %d FAILURES" % fails)
+    sys.exit(1)
+print("selftest: ok (float codec, decimal rounding, rounding model, Euclidean model cross-checked)")
 sys.exit(0)
